@@ -271,6 +271,12 @@ func (ex *Exec) applyContract(st *State, c *Contract, args []*Val, sig *types.Si
 	pre := st.snap()
 	preNext := st.next
 	env := &SpecEnv{ex: ex, st: st, vars: vars, cur: st, old: pre, pkg: pkg, nextOld: preNext}
+	if ci, ok := in.(ssa.CallInstruction); ok && c.Kind == "func" {
+		if cal := ci.Common().StaticCallee(); cal != nil && len(cal.Blocks) > 0 {
+			env.calleeFn = cal
+			env.dollar = map[string]*Val{}
+		}
+	}
 	site := "x"
 	var pos token.Pos
 	if in != nil {
@@ -387,8 +393,11 @@ func (ex *Exec) applyContract(st *State, c *Contract, args []*Val, sig *types.Si
 var autoPurePkgs = map[string]bool{"strings": true, "strconv": true, "unicode": true, "unicode/utf8": true, "path": true, "math": true, "math/bits": true}
 var autoPureDeny = map[string]bool{"strings.Repeat": true, "strings.NewReplacer": true, "strconv.Quote": false}
 
+// single functions of other packages with the same shape (pure, total, basic values)
+var autoPureAllow = map[string]bool{"net/url.PathEscape": true, "net/url.QueryEscape": true, "html.EscapeString": true, "html.UnescapeString": true}
+
 func (ex *Exec) autoPure(st *State, callee *ssa.Function, args []*Val) *Val {
-	if callee.Pkg == nil || callee.Signature.Recv() != nil || !autoPurePkgs[callee.Pkg.Pkg.Path()] {
+	if callee.Pkg == nil || callee.Signature.Recv() != nil || !(autoPurePkgs[callee.Pkg.Pkg.Path()] || autoPureAllow[callee.Pkg.Pkg.Path()+"."+callee.Name()]) {
 		return nil
 	}
 	full := callee.Pkg.Pkg.Path() + "." + callee.Name()
